@@ -400,3 +400,11 @@ def x13(cx: Cx, ob: Ob) -> None:
     from ..rules import no_fields_set_dependence
 
     no_fields_set_dependence(cx, ob)
+
+
+@obligation("C11-X4", "the strict constructor rejects exactly the record sets in which a name is claimed twice: both duplicate detectors compare by exact equality over all pairs, URI clashes first (shared with C04) - a converter the property says is valid must not be refused with an undocumented DuplicatePrefixes", floor=4)
+def x4(cx: Cx, ob: Ob) -> None:
+    from .c04 import d1 as c04_order, d2 as c04_matrix
+
+    c04_order(cx, ob)
+    c04_matrix(cx, ob)
